@@ -182,6 +182,7 @@ Section Enc.
   Definition DEV_error_argument := 7%nat.    (* matchIf / list.MatchN called on an error value *)
   Definition DEV_duplicate_property := 8%nat.
   Definition DEV_oneOf_false := 9%nat.
+  Definition DEV_error_member := 11%nat.     (* an error value inside a matchN list (evaluator interactions) *)
   Definition DEV_integer_and_number := 10%nat. (* type list with "integer" and "number": int stays *)
   Definition dev_if (b : bool) (cls : nat) (s : state) := if b then add_dev [cls] s else s.
   (* constraintInfo.add on s.all: `_` is dropped *)
@@ -526,16 +527,31 @@ Section Enc.
 
   Definition do_ref (o : option sub) (st : state) : state :=
     match o with Some f => step_ref (f mall) st | None => st end.
+  (* An error value as a member of a matchN list is evaluated correctly on its
+     own, but the evaluator of the pinned tree mishandles it next to a second
+     validator on list / struct instances (observed); such schemas are kept
+     out of the fragment (DEV_error_member). *)
+  Definition err_kept (rs : list result) : bool :=
+    existsb (fun r => is_err (r_e r) && negb (mempty (r_A r))) rs.
   Definition do_allOf (o : option (list sub)) (st : state) : state :=
     match o with
-    | Some l => let '(rs, A') := allOf_loop l (st_A st) in step_allOf (length l) rs A' st
+    | Some l => let '(rs, A') := allOf_loop l (st_A st) in
+                dev_if (existsb (fun r => is_err (r_e r) && r_hasC r) rs) DEV_error_member (step_allOf (length l) rs A' st)
     | None => st end.
   Definition do_anyOf (o : option (list sub)) (st : state) : state :=
-    match o with Some l => step_anyOf (length l) (map (fun f => f (st_A st)) l) st | None => st end.
+    match o with
+    | Some l => dev_if (err_kept (map (fun f => f (st_A st)) l)) DEV_error_member
+                       (step_anyOf (length l) (map (fun f => f (st_A st)) l) st)
+    | None => st end.
   Definition do_oneOf (o : option (list sub)) (st : state) : state :=
-    match o with Some l => step_oneOf (length l) (map (fun f => f (st_A st)) l) st | None => st end.
+    match o with
+    | Some l => dev_if (err_kept (map (fun f => f (st_A st)) l)) DEV_error_member
+                       (step_oneOf (length l) (map (fun f => f (st_A st)) l) st)
+    | None => st end.
   Definition do_not (o : option sub) (st : state) : state :=
-    match o with Some f => step_not (f mall) st | None => st end.
+    match o with
+    | Some f => dev_if (is_err (r_e (f mall))) DEV_error_member (step_not (f mall) st)
+    | None => st end.
   Definition do_props (o : option (list (str * sub))) (st : state) : state :=
     match o with Some l => step_props (map (fun ks => (fst ks, snd ks mall)) l) st | None => st end.
   Definition do_pprops (o : option (list (pat * sub))) (st : state) : state :=
